@@ -42,7 +42,39 @@ def acquisition_blocks(fn, cls):
     return out
 
 
+WAIT_WHILE_AVAIL = set()
+
+
+def wait_while_pred_covers(F, fn, t):
+    """The predicate closure handed to wait_while is true only under !shutting_down && available_workers <= queue.len()."""
+    clos = [c for c in F.closures_of(fn.gpath) if c.gpath.split('::')[-1] in paths.show_operand(fn, t['args'][2])]
+    if len(clos) != 1:
+        return False
+    c = clos[0]
+    ok = False
+    for b, blk in enumerate(c.blocks):
+        for st in blk['stmts']:
+            if st['k'] != 'assign' or st['lhs']['p'] or st['lhs']['l'] != 0:
+                continue
+            g = paths.all_guards(c, b)
+            if st['rv']['k'] == 'use' and st['rv']['op']['k'] == 'const':
+                if const_name(st['rv']['op']) == 'true':
+                    return False        # an unconditional `true` arm: no information
+                continue
+            if st['rv']['k'] == 'bin' and st['rv']['op'] in ('Le', 'Ge', 'Lt', 'Gt'):
+                a_, b_ = paths.show_operand(c, st['rv']['a']), paths.show_operand(c, st['rv']['b'])
+                le = (st['rv']['op'] == 'Le' and 'available_workers' in a_ and 'VecDeque' in b_) or (st['rv']['op'] == 'Ge' and 'available_workers' in b_ and 'VecDeque' in a_)
+                if le and any(x.endswith('.shutting_down in [0]') for x in g):
+                    ok = True
+                else:
+                    return False
+            else:
+                return False
+    return ok
+
+
 def check(R, F):
+    WAIT_WHILE_AVAIL.clear()
     pw = F.fn(T + 'pool_worker_loop')
     # ---- (a) worker side
     q_readers = locks.field_readers(pw, POOL, 'queue')
@@ -100,6 +132,12 @@ def check(R, F):
                     sd_tests.add(b)
                 if 'available_workers' in txt and 'VecDeque' in txt and txt.startswith('Gt('):
                     av_tests.add(b)
+        # Condvar::wait_while(guard, pred) returns only when pred is false; if pred is `!shutting_down && available <= queued`
+        # then its return is an availability test for every path on which shutting_down is then found false
+        for wb, wt in [(b, t) for b, t in fn.calls() if callee_name(t).endswith('Condvar::wait_while')]:
+            if wait_while_pred_covers(F, fn, wt):
+                av_tests.add(wb)
+                WAIT_WHILE_AVAIL.add((fn.gpath, wb))
         R.require(len(pushes) == 1 and sd_tests and av_tests, 'submit', T + name + '|anchors', fn.where(), 'one push_back, tests present', 'expected one push_back and tests of shutting_down and available_workers > queue.len(); found %d pushes, %d/%d tests' % (len(pushes), len(sd_tests), len(av_tests)))
         acq = acquisition_blocks(fn, POOL)
         for pb in pushes:
@@ -107,8 +145,8 @@ def check(R, F):
                 bad = None
                 for ab, kind in acq:
                     t = fn.blocks[ab]['term']
-                    if t['t'] is None:
-                        continue
+                    if t['t'] is None or ab in tests:
+                        continue          # (a wait_while whose predicate covers the test is itself the test)
                     p = fn.find_path(t['t'], lambda x: x == pb, avoid=tests)
                     if p is not None:
                         bad = (ab, kind, p)
@@ -120,6 +158,10 @@ def check(R, F):
             g = paths.dom_guards(fn, pb)
             okd = any(re.search(r'\.shutting_down in \[0\]$', x) for x in g) or any(re.search(r'\.shutting_down not in \[0\]$', x) is None and 'shutting_down' in x and x.endswith('in [0]') for x in g)
             oka = any(x.startswith('Gt(') and 'available_workers' in x and x.endswith('not in [0]') for x in g)
+            if not oka and okd:
+                # after wait_while(.., !shutting_down && available <= queued) and a shutting_down == false test: available > queued
+                sdb = [p_ for s_ in fn.doms(pb) for p_ in fn.preds()[s_] if fn.blocks[p_]['term']['k'] == 'switch' and p_ in sd_tests]
+                oka = any((fn.gpath, wb) in WAIT_WHILE_AVAIL and fn.dominates(wb, pb) and any(fn.dominates(wb, p_) for p_ in sdb) for wb in av_tests)
             # (in `submit` the loop exit is a join of one edge; fall back to the control-dependence edges)
             if not (okd and oka):
                 ag = paths.all_guards(fn, pb)
